@@ -256,6 +256,48 @@ func Run(r *ev.Run) {
 		}
 	}
 
+	// ---- hellos that the client fragments over several records (small ones at arbitrary cuts, large ones at 2^14): forwarded as framed ----
+	{
+		small := helloCase{Version: 0x0303, SID: 32, Exts: []int{0, 1, 2}}.build()
+		big := helloCase{Version: 0x0303, SID: 32, Exts: []int{0, 2, 9}}.build()
+		big.Exts = append(big.Exts, tlsref.Opaque(0x6b6b, 40000)) // a 40 kB hello (e.g. a huge PSK identity): three records
+		type fr struct {
+			name   string
+			stream []byte
+			h      *tlsref.Hello
+		}
+		var frs []fr
+		msg := small.Msg()
+		for _, cuts := range [][]int{{1}, {3}, {4}, {5}, {38}, {len(msg) - 1}, {2, 4}, {10, 20, 30, 40}} {
+			frs = append(frs, fr{fmt.Sprintf("small%v", cuts), tlsref.Fragment(0x0301, msg, cuts...), small})
+		}
+		frs = append(frs, fr{"big-at-16384", tlsref.FragmentMax(0x0301, big.Msg()), big}, fr{"big-uneven", tlsref.Fragment(0x0301, big.Msg(), 1000, 17000, 17001, 33000), big})
+		tail := cat2(tlsref.Record(20, 0x0303, []byte{1}), tlsref.Record(23, 0x0303, tlsref.DetBytes("app", 50)))
+		for _, f := range frs {
+			for ksi := range ks {
+				stream := append(slices.Clone(f.stream), tail...)
+				res := echx.Feed(stream, ks[ksi])
+				replay := map[string]any{"case": "fragmented hello " + f.name, "stream": echx.Hex(stream[:min(len(stream), 3000)]), "keys": echx.KeysDoc(ks[ksi])}
+				oc := "fragmented-passthrough"
+				switch {
+				case res.Panic != nil:
+					r.Violation("panic:fragmented", fmt.Sprint(res.Panic), replay)
+				case res.Err != nil:
+					oc = "fragmented-refused"
+					r.Violation("valid-hello-refused:fragmented:"+sizeClass(f.name), fmt.Sprintf("NewConn refused a ClientHello that is split over several records (RFC 8446 §5.1): %v", res.Err), replay)
+				case res.Accepted:
+					r.Violation("accepted-garbage:fragmented", "ECH accepted", replay)
+				case !bytes.Equal(res.Forwarded, stream) && !(len(res.Forwarded) == len(stream) && bytes.Equal(res.Forwarded[3:], stream[3:])):
+					oc = "fragmented-modified"
+					r.Violation("bytes-modified:fragmented:"+sizeClass(f.name), fmt.Sprintf("forwarded bytes differ from the client's bytes (got %d bytes, sent %d)", len(res.Forwarded), len(stream)), replay)
+				case res.ServerName != "plain.example.org":
+					r.Violation("name-alpn-differs:fragmented", fmt.Sprintf("ServerName()=%q", res.ServerName), replay)
+				}
+				r.Eval(string(stream)+fmt.Sprint("frag", ksi), oc)
+			}
+		}
+	}
+
 	// ---- following streams ----
 	recPool := [][]byte{
 		tlsref.Record(20, 0x0303, []byte{1}),
@@ -322,4 +364,13 @@ func Run(r *ev.Run) {
 			}()
 		}
 	}
+}
+
+func cat2(a, b []byte) []byte { return append(append([]byte{}, a...), b...) }
+
+func sizeClass(name string) string {
+	if len(name) >= 3 && name[:3] == "big" {
+		return "larger-than-a-record"
+	}
+	return "small"
 }
